@@ -10,6 +10,30 @@ NOTE = ("Trusted: Lean 4.33 kernel; axioms propext / Classical.choice / Quot.sou
         "standards. CPython's re/str/int semantics are modelled, not verified.")
 
 CLAIMS = {
+    "C08": dict(
+        text="Lean 4 theorems for every well-formed country entry and ALL component strings (any length, any code "
+             "points): zfill keeps every supplied character (length max(len,width), zeros then the value, sign rule); "
+             "placement - after the eight components are written in Component order into a BBAN of the country's "
+             "length, every published component is found unchanged at its published position and the length is "
+             "preserved (induction over the component list using disjointness/bounds from table_wf); precise error "
+             "class for an over-long bank / branch / account code in that order; InvalidCountryCode / root error for "
+             "an unknown country / one without positions. PARTIAL: that generate() as a whole never lets a foreign "
+             "exception escape, and the end-to-end read-back through from_bban and the validating constructor, are "
+             "checked by the correspondence/dynamic stream (all countries, lengths 0..width+3, wild alphabets), not "
+             "proved.",
+        design="7 (C08)",
+        technique="Lean 4 proof (list slicing / overlay induction on regenerated position tables) + differential "
+                  "correspondence with read-back and error-class checks"),
+    "C09": dict(
+        text="Lean 4 theorem: for every national algorithm whose validate is the inherited compute == expected (all "
+             "but CZ/SK and IS, i.e. exactly the 19 computing countries - instance fact kernel-checked on the "
+             "regenerated registration table) any successfully computed check digits validate for ALL component "
+             "strings; with the C08 placement theorem the fields read and the check-digit field are found unchanged "
+             "in the assembled BBAN. PARTIAL: generate -> validate nationally, seeded random draws, cross-country "
+             "reuse of one digit text, and parse -> rebuild are exercised dynamically (not proved end to end).",
+        design="7 (C09)",
+        technique="Lean 4 proof (per-algorithm case analysis) + regenerated registration obligations + "
+                  "differential correspondence (generate/validate, rebuild)"),
     "C17": dict(
         text="Kernel-checked obligations (decide +kernel, no axioms beyond the standard three) on the country table "
              "and on ALL bank entries regenerated from the live tree on every run: structure strings parse and "
